@@ -1136,8 +1136,15 @@ func (e *fengine) checkAck(op *fop, idx int) {
 				op.id, op.desc, op.seqs, byNode, byState.liftedFrom, byState.epoch, byState.le, why, strings.Join(all, " "), strings.Join(hist, " | ")), nil)
 			return
 		}
-		r.FailSig("fenced-append-acked", "lifted-by-older-metadata", fmt.Sprintf("op%d %s was acknowledged (seqs %v) only because the leader's active write fence had been lifted by metadata older than the one that set it (fence version went back inside one epoch/leader epoch): %s",
-			op.id, op.desc, op.seqs, strings.Join(hist, " | ")), nil)
+		// Pull/ack path, known finding C04-K1. When it is an open known finding the run
+		// goes on: nothing here keeps a ledger that the acknowledged row contradicts
+		// (observations are re-read from the stores every step, the refused set only
+		// holds appends answered ErrWriteFenced), and every later acknowledgement is
+		// judged on its own.
+		if !r.FailSigContinue("fenced-append-acked", "lifted-by-older-metadata", fmt.Sprintf("op%d %s was acknowledged (seqs %v) only because the leader's active write fence had been lifted by metadata older than the one that set it (fence version went back inside one epoch/leader epoch): %s",
+			op.id, op.desc, op.seqs, strings.Join(hist, " | ")), nil) {
+			r.Probe("known.continued.fenced-append-acked")
+		}
 		return
 	}
 	if !anyAdmissible {
